@@ -3,9 +3,5 @@ CONSTANTS
   PartyShapes <- ShapesThorough
   MaxGates = 3
   MaxOutputs = 2
-INVARIANT LiveRegsDisjoint
-INVARIANT NeededWiresLive
-INVARIANT RegCountBounded
-INVARIANT DoneEquivalent
 INVARIANT Emit
 CHECK_DEADLOCK FALSE
